@@ -4,7 +4,12 @@ import (
 	"fmt"
 	"os"
 	"path/filepath"
+	"runtime"
 	"strings"
+	"sync"
+	"time"
+
+	kv "github.com/XiXi-2024/xixi-kv"
 
 	"github.com/XiXi-2024/xixi-kv/vhook"
 
@@ -21,7 +26,7 @@ func init() { core.Register(c13{}) }
 func (c13) ID() string    { return "C13" }
 func (c13) Level() string { return "exploration" }
 func (c13) Rule() string {
-	return "cases = generated op sequences (puts, deletes, batches with and without Sync, rotations, oversized values, explicit Sync, merges, Close/reopen; every fourth case starts on a directory left by an unclean shutdown - torn last record under standard I/O, pre-extended files under mmap - so that the policy is also checked on files whose size was reset by recovery) under each SyncStrategy x BytesPerSync {1,300,4096,1 MiB} x FileIOType; an online checker over the hooked write/sync event stream keeps, per data-directory file, written and durable offsets (durable advances only at a COMPLETED sync event) and attributes every write (with its padding bytes computed by the independent decoder) to the API call in flight; rules evaluated at every API return: Always -> every byte written by Put/Delete calls is durable; Threshold(B) -> non-padding bytes written by Put/Delete calls and not yet durable < B; Sync batch -> everything written during the call incl. the sealing record is durable; Sync() and Close() -> every data-directory file has written == durable; at the creation of data file n+1 every other data file is fully durable. strace cases: the same kind of workload runs in a child under `strace -f -y -e trace=write,fsync,fdatasync`; per data file the bytes written and the number of successful fsync calls seen by the kernel must equal the hook log (so the checker does not merely check its own hooks). Non-trivial: case with >=1 rotation, >=1 Sync batch or explicit Sync, and >=40 rule evaluations; distinct = hash of (config, op list)"
+	return "cases = generated op sequences (puts, deletes, batches with and without Sync, rotations, oversized values, explicit Sync, merges, Close/reopen; every fourth case starts on a directory left by an unclean shutdown - torn last record under standard I/O, pre-extended files under mmap - so that the policy is also checked on files whose size was reset by recovery) under each SyncStrategy x BytesPerSync {1,300,4096,1 MiB} x FileIOType; an online checker over the hooked write/sync event stream keeps, per data-directory file, written and durable offsets (durable advances only at a COMPLETED sync event) and attributes every write (with its padding bytes computed by the independent decoder) to the API call in flight; rules evaluated at every API return: Always -> every byte written by Put/Delete calls is durable; Threshold(B) -> non-padding bytes written by Put/Delete calls and not yet durable < B; Sync batch -> everything written during the call incl. the sealing record is durable; Sync() and Close() -> every data-directory file has written == durable; at the creation of data file n+1 every other data file is fully durable. conc cases: ONE writer goroutine (Put, every few calls Sync) runs while a second goroutine calls Merge repeatedly (Merge rotates the active file and writes only outside the data directory); the event handler sleeps at the sync hooks to widen windows; at the return of each Sync() every byte that had been written to a data-directory file when that Sync was CALLED must be durable, and at each Put return the Threshold bound must hold - exact, because only the writer appends to data-directory files. strace cases: the same kind of workload runs in a child under `strace -f -y -e trace=write,fsync,fdatasync`; per data file the bytes written and the number of successful fsync calls seen by the kernel must equal the hook log (so the checker does not merely check its own hooks). Non-trivial: case with >=1 rotation, >=1 Sync batch or explicit Sync, and >=40 rule evaluations; distinct = hash of (config, op list)"
 }
 func (c13) Assumptions() []string {
 	return []string{"a completed fsync (FileIO) or msync/Flush (MMap) event makes all bytes written to that file before the event durable",
@@ -48,6 +53,16 @@ func (c13) Cases(tier string, seed uint64) []core.Case {
 			DataFileSize: []int64{4 << 10, 40 << 10, 64 << 10, 100000}[r.Intn(4)], Sync: m.S, BytesPerSync: m.B}
 		out = append(out, core.Case{Index: i, ID: fmt.Sprintf("c13-%05d", i), Seed: r.U64(), Data: seqCase{Cfg: cfg, NOps: r.Range(40, 200), NKeys: r.Range(3, 9)}})
 	}
+	// one writer + a concurrent Merge client (policy at the writer's returns)
+	nc := 12
+	if tier == "thorough" {
+		nc = 400
+	}
+	for i := 0; i < nc; i++ {
+		m := modes[[]int{0, 3, 4}[i%3]]
+		out = append(out, core.Case{Index: len(out), ID: fmt.Sprintf("c13-conc-%03d", i), Seed: r.U64(),
+			Data: seqCase{Cfg: core.Config{IndexType: core.IndexTypes[i%3], ShardNum: 4, FileIO: byte((i / 3) % 2), DataFileSize: 16 << 10, Sync: m.S, BytesPerSync: m.B}, NOps: -2}})
+	}
 	// cross-check of the instrumentation against strace (standard I/O)
 	nt := 3
 	if tier == "thorough" {
@@ -70,6 +85,9 @@ type c13Write struct {
 
 func (c13) Run(c core.Case, w *core.Worker) core.Result {
 	sc := c.Data.(seqCase)
+	if sc.NOps == -2 {
+		return runC13Concurrent(c, sc, w)
+	}
 	if sc.NOps < 0 {
 		return runStraceCase(c, w, int(sc.Cfg.Sync), int(sc.Cfg.BytesPerSync))
 	}
@@ -351,4 +369,120 @@ func c13Unclean(dir string, cfg core.Config, r *core.Rng, s *core.Session) bool 
 		}
 	}
 	return true
+}
+
+// runC13Concurrent: the sync policy at the returns of one writer while Merge runs concurrently.
+func runC13Concurrent(c core.Case, sc seqCase, w *core.Worker) core.Result {
+	res := core.Result{}
+	dir := w.Dir("db")
+	io := mon.NewIOLog()
+	io.Track = dir
+	r := core.NewRng(c.Seed)
+	inDir := func(p string) bool { return filepath.Dir(p) == dir }
+	var mu sync.Mutex
+	type pw struct {
+		path  string
+		end   int64
+		bytes int64
+	}
+	var putWrites []pw // writes attributed to the writer's Put calls (only the writer appends in dir)
+	io.OnEvent = func(ev mon.Event, buf []byte) {
+		switch ev.Kind {
+		case "io.write":
+			if inDir(ev.Path) {
+				_, pad, _ := vfmt.ScanRaw(buf, ev.Off)
+				mu.Lock()
+				putWrites = append(putWrites, pw{ev.Path, ev.Off + int64(ev.N), int64(ev.N) - pad})
+				mu.Unlock()
+			}
+		case "io.sync":
+			// the engine is stopped right before the flush: widen the window
+			if (ev.Seq>>2)%3 == 0 {
+				time.Sleep(300 * time.Microsecond)
+			} else {
+				runtime.Gosched()
+			}
+		}
+	}
+	defer io.Install()()
+	db, err := kv.Open(sc.Cfg.Options(dir))
+	if err != nil {
+		res.Violate("Open failed: "+err.Error(), map[string]string{"class": "open-error"}, nil)
+		return res
+	}
+	stop := make(chan struct{})
+	var wg sync.WaitGroup
+	wg.Add(1)
+	merges := 0
+	go func() {
+		defer wg.Done()
+		for {
+			select {
+			case <-stop:
+				return
+			default:
+			}
+			db.Merge()
+			merges++
+			time.Sleep(200 * time.Microsecond)
+		}
+	}()
+	violated := ""
+	keys := core.GenKeys(r, 5)
+	for i := 0; i < 400 && violated == ""; i++ {
+		k := keys[r.Intn(len(keys))]
+		if err := db.Put(k, core.FillValue(r.U64()|1, r.Range(10, 700))); err != nil {
+			violated = "Put failed: " + err.Error()
+			break
+		}
+		files := io.Files()
+		if sc.Cfg.Sync == 2 {
+			res.Add("rule_threshold_concurrent", 1)
+			var sum int64
+			mu.Lock()
+			kept := putWrites[:0]
+			for _, wr := range putWrites {
+				if f, ok := files[wr.path]; ok && wr.end > f.Durable {
+					sum += wr.bytes
+					kept = append(kept, wr)
+				}
+			}
+			putWrites = kept
+			mu.Unlock()
+			if sum >= int64(sc.Cfg.BytesPerSync) {
+				violated = fmt.Sprintf("Threshold(%d): %d bytes appended by acknowledged Puts are unflushed at the return of a Put while Merge runs concurrently", sc.Cfg.BytesPerSync, sum)
+			}
+		}
+		if i%5 == 4 {
+			before := io.Files() // what had been written when Sync is called
+			if err := db.Sync(); err != nil {
+				violated = "Sync failed: " + err.Error()
+				break
+			}
+			after := io.Files()
+			res.Add("rule_sync_concurrent", 1)
+			for p, f := range before {
+				if !inDir(p) {
+					continue
+				}
+				if a, ok := after[p]; ok && a.Durable < f.Written {
+					violated = fmt.Sprintf("Sync() returned while %s has %d bytes that were written before the call and are not flushed (written %d, durable %d), with Merge running concurrently", filepath.Base(p), f.Written-a.Durable, f.Written, a.Durable)
+					break
+				}
+			}
+		}
+	}
+	close(stop)
+	wg.Wait()
+	core.Safe(func() { db.Close() })
+	res.Add("concurrent_merges", int64(merges))
+	if violated != "" {
+		res.Violate(violated, map[string]string{"class": "sync-policy", "rule": "concurrent", "io": fmt.Sprint(sc.Cfg.FileIO), "sync": fmt.Sprint(sc.Cfg.Sync)}, map[string]any{"config": sc.Cfg})
+	}
+	res.Nontrivial = merges > 2
+	res.Hash = core.HashBytes([]byte(fmt.Sprint("conc", c.Seed, sc.Cfg)))
+	if c.Index%6 == 0 {
+		res.Sample = map[string]any{"kind": "one writer + concurrent Merge", "config": sc.Cfg, "merges": merges}
+	}
+	return res
 }
